@@ -30,6 +30,27 @@ const prodP = "C71CAEB9C6B1C9048E6C522F70F13F73980D40238E3E21C14934D037563D930F"
 	"E418FC15E83EBEA0F87FA9FF5EED70050DED2849F47BF959D956850CE929851F" +
 	"0D8115F635B105EE2E4E15D04B2454BF6F4FADF034B10403119CD8E3B92FCC5B"
 
+// two further 2048-bit safe primes (generated once with `openssl dhparam -2 2048`; safety is re-checked
+// at start-up with math/big): "random valid groups" besides the production one
+const extraP1 = "" +
+	"A88CCBE644651A090D0B560D39BB89E3F3E9DFA7A96CC1C68F526B4005FCDFD8" +
+	"E545F10492F1C7FE8CAD409BDD35056FD5DC7DB02173616F2FDDA747A140731A" +
+	"D8E32AEC3F2430AC19CE881349EC2CFCF726024D480AAD019C4714AED5F1FDF7" +
+	"83E066F042B9E8B6056A050B7B027F977149DE2C0B5B8AD8F5B9A2F1EB31036A" +
+	"E96A70A654DAE59AFEE4D5CA1592FDDACB6EC2270BDEAE481DA8FF889C289E3B" +
+	"ED74A33353236EA0CF53414B68905838F20521F2113C737B91B20B0BCDF30894" +
+	"F7B087BCCCD8BB5A98AF08D9C2CDFA5B9494BED66B3B8232A335A8D2F13911B7" +
+	"4ADB0EC0A7429566B6A3E1B3FF318ECB32DF65EB13F43953369FC46700CD0F4F"
+const extraP2 = "" +
+	"ED7B6B03214BF9AAEBBB4127D96D3A53FF04CE90FBF8AE68AF2FB667DD55F691" +
+	"86B6E99AA2204EF090C0E9CC228303447243BF78F212A5DC363A781C4D08A74A" +
+	"DF9C9FFAD13108D2AB2753765D31BDA4C189B51170A4583CAF5B09E5809D5A03" +
+	"C83C208CFD3C424BBA7D23BA0A915F2EB00ECF428B070A9D3CB0EFE1B7E33B49" +
+	"DF403C6A4566716BE8FEC83850CB79443BA8BAEDF303B8E79A98626EBB9F979E" +
+	"CC3837DF4168F9B7B4219B762DF8ABAB0E65237B8FECC139F8B611632962DE17" +
+	"9D925EC88391F1A37C9F6C5C1573C1293315142FA2610A7D01DE5A829C671825" +
+	"0E5A91A574209DDB0055419C73B65C4D6E381F311C7BDA5A02F7D9DCEF30CDF7"
+
 // observation codes shared with Run/Check_C15.v
 const (
 	oOK = iota
@@ -300,6 +321,12 @@ func (h *Hn) hashCase(in hashIn, valid bool, emit bool) obs {
 		}
 		c.Violate(sig, fmt.Sprintf("SRP.Hash answer differs from the specification (%s): got %v want A=%x.. M1=%x", in.Note, o, pre(wantA), wantM1), sh, ix, in)
 	}
+	if valid && o.Code == oOK {
+		if b := num(B); b.Sign() == 0 || b.Cmp(p) >= 0 {
+			// known finding: no range check on srp_B (the model answers the same way: C15_unchecked_B)
+			c.Violate("unchecked-srp-B", fmt.Sprintf("SRP.Hash answers for a server value outside 0 < B < p (%s); SRP-6a and TDLib refuse such B", in.Note), sh, ix, in)
+		}
+	}
 	if valid {
 		c.Nontrivial("hash:" + in.Note + ":" + in.Password + in.Random[:min(8, len(in.Random))])
 	} else {
@@ -395,14 +422,49 @@ func main() {
 		return
 	}
 
-	// the generators valid for the production prime by the residue table of the specification
-	var gens []int
-	for g := 2; g <= 7; g++ {
-		if crypto.CheckGP(g, p) == nil {
-			gens = append(gens, g)
-		}
+	// valid groups: the production prime and two other safe primes, each with every generator that
+	// the residue table of the specification allows (table written out here, independent of CheckGP)
+	type group struct {
+		name string
+		hex  string
+		p    *big.Int
+		gens []int
 	}
-	c.Note(fmt.Sprintf("generators valid for the production prime: %v", gens))
+	residueOK := func(g int, q *big.Int) bool {
+		m := func(k int64) int64 { return new(big.Int).Mod(q, big.NewInt(k)).Int64() }
+		switch g {
+		case 2:
+			return m(8) == 7
+		case 3:
+			return m(3) == 2
+		case 4:
+			return true
+		case 5:
+			return m(5) == 1 || m(5) == 4
+		case 6:
+			return m(24) == 19 || m(24) == 23
+		case 7:
+			return m(7) == 3 || m(7) == 5 || m(7) == 6
+		}
+		return false
+	}
+	var groups []group
+	for i, hx := range []string{prodP, extraP1, extraP2} {
+		q := num(unhex(hx))
+		if q.BitLen() != 2048 || !q.ProbablyPrime(24) || !new(big.Int).Rsh(q, 1).ProbablyPrime(24) {
+			c.Note(fmt.Sprintf("group %d is not a 2048-bit safe prime: skipped", i))
+			continue
+		}
+		gr := group{name: []string{"production", "extra1", "extra2"}[i], hex: hx, p: q}
+		for g := 2; g <= 7; g++ {
+			if residueOK(g, q) {
+				gr.gens = append(gr.gens, g)
+			}
+		}
+		groups = append(groups, gr)
+		c.Note(fmt.Sprintf("group %s: generators %v", gr.name, gr.gens))
+	}
+	gens := groups[0].gens
 
 	// ---- corpus: the documentation vector of srp_test.go ----
 	{
@@ -434,7 +496,10 @@ func main() {
 	n := c.N(6, 200)
 	emitBudget := c.N(8, 40)
 	for i := 0; i < n; i++ {
-		g := gens[c.Rng.Intn(len(gens))]
+		grp := groups[i%len(groups)]
+		prodP, p := grp.hex, grp.p // this scenario's group
+		g := grp.gens[c.Rng.Intn(len(grp.gens))]
+		c.Count(fmt.Sprintf("group:%s:g=%d", grp.name, g))
 		password := c.Rng.Bytes(c.Rng.Range(0, 24))
 		salt1 := c.Rng.Bytes([]int{0, 8, 8, 8, 16, 40}[c.Rng.Intn(6)])
 		salt2 := c.Rng.Bytes([]int{0, 16, 16, 16, 32}[c.Rng.Intn(5)])
@@ -503,7 +568,10 @@ func main() {
 	// exercised only then. Search server / client secrets that produce them (a few hundred modular
 	// exponentiations each), and also feed arbitrary short B directly.
 	for round := 0; round < c.N(1, 6); round++ {
-		g := gens[round%len(gens)]
+		grp := groups[(round+1)%len(groups)]
+		prodP, p := grp.hex, grp.p // this round's group
+		g := grp.gens[round%len(grp.gens)]
+		c.Count(fmt.Sprintf("group:%s:g=%d", grp.name, g))
 		G := big.NewInt(int64(g))
 		password := c.Rng.Bytes(c.Rng.Range(1, 16))
 		salt1, salt2 := c.Rng.Bytes(8), c.Rng.Bytes(16)
@@ -644,8 +712,8 @@ func main() {
 			h.hashCase(in, true, emit)
 		}
 		mk(nil, "B-empty", true)
-		mk(make([]byte, 256), "B-zero", false)
-		mk(pad(p), "B=p", false)
+		mk(make([]byte, 256), "B-zero", true)
+		mk(pad(p), "B=p", true)
 		mk(pad(new(big.Int).Add(p, big.NewInt(5))), "B=p+5", true)
 		mk(append([]byte{1}, c.Rng.Bytes(256)...), "B-257-bytes", true)
 	}
